@@ -597,7 +597,7 @@ def add_entries(name, maker, entries, quick, thorough, **kw):
 
 add_entries("e2_str_plain", _mk_str, E2_STR["plain"], 60, 120)
 add_entries("e2_str_backslash", _mk_str, E2_STR["backslash"], 30, 60)
-add_entries("e2_str_newline", _mk_str, E2_STR["newline"], None, 60)
+add_entries("e2_str_newline", _mk_str, E2_STR["newline"], 30, 60)
 
 # --- paths -------------------------------------------------------------------------
 P_HASH = [RT(s) for s in (
@@ -674,7 +674,7 @@ add("e2_path_hash", _mk_hash, P_HASH, 60, 150)
 add("e2_path_array", _mk_arr, P_ARR, 60, 150)
 add("e2_path_root_quoted", _mk_hash, P_ROOT_QUOTED, 30, 60)
 add("e2_path_root_nested", _mk_hash, P_ROOT_NESTED, 30, 60)
-add("e2_path_key_escape", _mk_hash, P_KEY_ESC, None, 60)
+add("e2_path_key_escape", _mk_hash, P_KEY_ESC, 30, 60)
 
 # --- ranges, filters, ternary -------------------------------------------------------
 R_RANGE = [RT(s) for s in (
